@@ -205,3 +205,8 @@ def run(ctx, rep):
     rule_stackend(ctx, rep, rid="R-C06-stackend")
     from rules.c02 import rule_bracket
     rule_bracket(ctx, rep, rid="R-C06-bracket")
+    # the topological sort is what makes the later transforms independent of the order of declarations: a reference and its
+    # declaration must be one node however they are spelled
+    from rules.c08 import rule_keys
+    rule_keys(ctx, rep, rid="R-C06-keys", files=("xform_toposort_declarations",), floor=2,
+              what="the declaration sort that removes the dependence on declaration order identifies names case-insensitively: every name table of xform_toposort_declarations")
